@@ -61,20 +61,21 @@ type c15Item struct {
 }
 
 type c15Case struct {
-	ID       int      `json:"id"`
-	Kind     string   `json:"kind"` // recv-ctl recv-data recv-fuzz send-ack send-fuzz legacy-file legacy-manifest dumb dec-extreme hdr-extreme
-	Tag      string   `json:"tag"`
-	Resume   bool     `json:"resume"`
-	Delta    bool     `json:"delta"` // the endpoint runs with a byte-progress callback (as the CLI does): the per-read progress path
+	ID       int       `json:"id"`
+	Kind     string    `json:"kind"` // recv-ctl recv-data recv-fuzz send-ack send-fuzz legacy-file legacy-manifest dumb dec-extreme hdr-extreme
+	Tag      string    `json:"tag"`
+	Resume   bool      `json:"resume"`
+	Delta    bool      `json:"delta"` // the endpoint runs with a byte-progress callback (as the CLI does): the per-read progress path
+	DeltaSet bool      `json:"-"`
 	Items    []c15Item `json:"items"`
-	Header   []byte   `json:"header"`
-	Ctl      []byte   `json:"ctl"`
-	Data     [][]byte `json:"data"`
-	Mem      bool     `json:"mem"`
-	SrcDir   string   `json:"src"`
-	Manifest []byte   `json:"manifest"`
-	Streams  int      `json:"streams"`
-	MustErr  string   `json:"musterr"` // the script violates this stated guard of the protocol: the endpoint has to return an error
+	Header   []byte    `json:"header"`
+	Ctl      []byte    `json:"ctl"`
+	Data     [][]byte  `json:"data"`
+	Mem      bool      `json:"mem"`
+	SrcDir   string    `json:"src"`
+	Manifest []byte    `json:"manifest"`
+	Streams  int       `json:"streams"`
+	MustErr  string    `json:"musterr"` // the script violates this stated guard of the protocol: the endpoint has to return an error
 }
 
 type c15Result struct {
@@ -956,7 +957,9 @@ func runC15(cfg config) *hx.Report {
 	var eps []c15Case
 	add := func(c c15Case) int {
 		c.ID = next()
-		c.Delta = c.ID%2 == 1
+		if !c.DeltaSet {
+			c.Delta = c.ID%2 == 1
+		}
 		eps = append(eps, c)
 		return c.ID
 	}
@@ -984,14 +987,24 @@ func runC15(cfg config) *hx.Report {
 			func() []c15Rec { return []c15Rec{begin(items[0], nil)} }, // duplicate begin
 			func() []c15Rec { return []c15Rec{begin(items[0], func(f *transfer.FileBegin) { f.ChunkSize = 0 })} },
 			func() []c15Rec { return []c15Rec{{"Credit", c15Enc(transfer.Credit{StreamID: 1, Credits: 2})}} },
-			func() []c15Rec { return []c15Rec{{"CreditBatch", c15Enc(transfer.CreditBatch{Entries: []transfer.Credit{{StreamID: 1, Credits: 1}}})}} },
-			func() []c15Rec { return []c15Rec{{"FileDone", c15Enc(transfer.FileDone{StreamID: c15Key(items[0]), OK: true})}} },
+			func() []c15Rec {
+				return []c15Rec{{"CreditBatch", c15Enc(transfer.CreditBatch{Entries: []transfer.Credit{{StreamID: 1, Credits: 1}}})}}
+			},
+			func() []c15Rec {
+				return []c15Rec{{"FileDone", c15Enc(transfer.FileDone{StreamID: c15Key(items[0]), OK: true})}}
+			},
 			func() []c15Rec { return []c15Rec{{"DataStreams", c15Enc(transfer.DataStreams{Count: 2})}} },
 			func() []c15Rec { return []c15Rec{end(c15Key(items[0]))} },
 			func() []c15Rec { return []c15Rec{end(12345)} },
-			func() []c15Rec { return []c15Rec{{"ResumeRequest", c15Enc(transfer.ResumeRequest{FileID: items[0].ID, StreamID: c15Key(items[0])})}} },
-			func() []c15Rec { return []c15Rec{{"ResumeRequest", c15Enc(transfer.ResumeRequest{FileID: "nope", StreamID: c15Key(items[0])})}} },
-			func() []c15Rec { return []c15Rec{{"ResumeRequest", c15Enc(transfer.ResumeRequest{FileID: "x", StreamID: 777})}} },
+			func() []c15Rec {
+				return []c15Rec{{"ResumeRequest", c15Enc(transfer.ResumeRequest{FileID: items[0].ID, StreamID: c15Key(items[0])})}}
+			},
+			func() []c15Rec {
+				return []c15Rec{{"ResumeRequest", c15Enc(transfer.ResumeRequest{FileID: "nope", StreamID: c15Key(items[0])})}}
+			},
+			func() []c15Rec {
+				return []c15Rec{{"ResumeRequest", c15Enc(transfer.ResumeRequest{FileID: "x", StreamID: 777})}}
+			},
 			func() []c15Rec { return []c15Rec{{"Garbage", []byte{byte(0x20 + rng.Intn(100)), 1, 2, 3}}} },
 			func() []c15Rec { return []c15Rec{{"Trunc", c15Enc(transfer.FileEnd{StreamID: 5})[:1+rng.Intn(11)]}} },
 		}
@@ -1084,13 +1097,13 @@ func runC15(cfg config) *hx.Report {
 				return append(append(append([]c15Rec{}, fr[:p]...), r), fr[p:]...)
 			}
 		}
-		mut(ins(c15Rec{"Frame", c15Frame(key0, 1000, 3, 0, []byte{1, 2, 3})}))               // index out of range (or empty file)
-		mut(ins(c15Rec{"Frame", c15Frame(key0, 0, 0, 0, nil)}))                              // length 0
-		mut(ins(c15Rec{"Frame", c15Frame(key0, 0, cs+1, 0, make([]byte, cs+1))}))            // length > chunk size
-		mut(ins(c15Rec{"Frame", c15Frame(key0, 0, 2, 12345, []byte{9, 9})}))                 // wrong CRC
-		mut(ins(c15Rec{"Frame", c15GoodFrame(0xdeadbeef, 0, []byte{1})}))                    // unknown file key
-		mut(ins(c15Rec{"Frame", c15Frame(key0, 0, 0xffffffff, 0, []byte{1, 2})}))            // absurd length
-		mut(func(fr []c15Rec) []c15Rec { return append(fr, fr...) })                         // everything twice (late duplicates)
+		mut(ins(c15Rec{"Frame", c15Frame(key0, 1000, 3, 0, []byte{1, 2, 3})}))    // index out of range (or empty file)
+		mut(ins(c15Rec{"Frame", c15Frame(key0, 0, 0, 0, nil)}))                   // length 0
+		mut(ins(c15Rec{"Frame", c15Frame(key0, 0, cs+1, 0, make([]byte, cs+1))})) // length > chunk size
+		mut(ins(c15Rec{"Frame", c15Frame(key0, 0, 2, 12345, []byte{9, 9})}))      // wrong CRC
+		mut(ins(c15Rec{"Frame", c15GoodFrame(0xdeadbeef, 0, []byte{1})}))         // unknown file key
+		mut(ins(c15Rec{"Frame", c15Frame(key0, 0, 0xffffffff, 0, []byte{1, 2})})) // absurd length
+		mut(func(fr []c15Rec) []c15Rec { return append(fr, fr...) })              // everything twice (late duplicates)
 		mut(func(fr []c15Rec) []c15Rec { return append(fr, c15Rec{"Garbage", rng.Bytes(1 + rng.Intn(30))}) })
 		mut(func(fr []c15Rec) []c15Rec { // truncated inside the last frame
 			if len(fr) == 0 {
@@ -1103,6 +1116,25 @@ func runC15(cfg config) *hx.Report {
 		mut(func(fr []c15Rec) []c15Rec { return nil })
 		for _, s := range scripts {
 			add(c15Case{Kind: "recv-data", Tag: "data-script", Resume: resume, Items: items, Header: c15Header(items), Ctl: c15Cat(prefix), Data: [][]byte{c15Cat(s)}})
+		}
+		// the data stream ends at every kind of position inside a frame (inside the
+		// header, right after it, inside the payload, one byte short), the control
+		// stream staying open - with and without the byte-progress callback
+		if len(frames) > 0 {
+			cut := rng.Intn(len(frames))
+			l := frames[cut].b
+			var cuts []int
+			for _, at := range []int{1, 19, 20, 21, 20 + (len(l)-20)/2, len(l) - 1} {
+				if at > 0 && at < len(l) {
+					cuts = append(cuts, at)
+				}
+			}
+			for _, at := range cuts {
+				s := append(append([]c15Rec{}, frames[:cut]...), c15Rec{"Trunc", l[:at]})
+				for _, delta := range []bool{false, true} {
+					add(c15Case{Kind: "recv-data", Tag: "data-script", Resume: resume, Delta: delta, DeltaSet: true, Items: items, Header: c15Header(items), Ctl: c15Cat(prefix), Data: [][]byte{c15Cat(s)}})
+				}
+			}
 		}
 		// the stated guards of the data-stream reader, hit by the first frame of the stream
 		if items[0].Size > 0 {
